@@ -63,6 +63,13 @@ def probe_options(case):
     d = workdir()
     events = []
     pubs = []
+    subs = []
+
+    def subscribe(topic, callback, qos):
+        if qos not in (0, 1, 2):
+            raise ValueError("Invalid QoS level.")  # what an MQTT client library does
+        subs.append((topic, qos))
+
     kwargs = {}
     pfile = os.path.join(d, f"net.{vals['fmt']}")
     for opt in subset:
@@ -82,7 +89,7 @@ def probe_options(case):
     try:
         try:
             if "MQTT" in cls_name:
-                gw = klass(lambda *a: pubs.append(a), lambda *a: None, **kwargs)
+                gw = klass(lambda *a: pubs.append(a), subscribe, **kwargs)
             elif "Serial" in cls_name:
                 gw = klass("/dev/ttyVERIF", **kwargs)
             else:
@@ -153,6 +160,21 @@ def probe_options(case):
                 gw.tasks.queue.clear()
             elif 1 not in gw.sensors:
                 bad("in_prefix", "a topic on the configured inbound prefix was not accepted")
+            # the inbound prefix also governs what is subscribed: initial topics, and the topics of a presented child
+            del subs[:]
+            gw.init_topics()
+            got = {t for t, _ in subs}
+            need = {f"{want_in}/+/+/0/+/+", f"{want_in}/+/+/3/+/+"}
+            if not need <= got:
+                bad("in_prefix", f"initial subscription on the configured prefix is incomplete: missing {sorted(need - got)} (subscribed {sorted(got)})")
+            del subs[:]
+            gw.sensors.clear()
+            gw.logic("3;255;0;0;17;2.2")
+            gw.logic("3;4;0;0;3;")
+            got = {t for t, _ in subs}
+            need = {f"{want_in}/3/4/1/+/+", f"{want_in}/3/4/2/+/+", f"{want_in}/3/+/4/+/+"}
+            if not need <= got:
+                bad("in_prefix", f"subscription for a presented child on the configured prefix is incomplete: missing {sorted(need - got)} (subscribed {sorted(got)})")
         else:
             want_to = vals["timeout"] if "timeout" in subset else 1.0
             want_rt = vals["reconnect_timeout"] if "reconnect_timeout" in subset else 10.0
@@ -184,6 +206,7 @@ def probe_connect_loop(cls_name, gw, tr, want_to, want_rt, rep, subset):
     viols = []
     calls = []
     sleeps = []
+    saved_proto = [tr.protocol]
 
     def sleep(seconds):
         sleeps.append(seconds)
@@ -222,6 +245,27 @@ def probe_connect_loop(cls_name, gw, tr, want_to, want_rt, rep, subset):
             gt.socket, gt.time = saved
         if not calls or calls[0] != (gw.server_address, want_rt):
             viols.append(Violation(PROP, f"option-ignored|{cls_name}|reconnect_timeout", f"{cls_name} with {sorted(subset)}: create_connection called with {calls[:1]}", rep))
+        # the same loop when the connect attempt times out instead of being refused
+        proto = tr.protocol or saved_proto[0]
+        tr.protocol = proto
+        first = list(sleeps)
+        del sleeps[:]
+
+        def create_connection_timeout(address, timeout=None):
+            calls.append((address, timeout))
+            raise _socket.timeout("timed out (harness)")
+
+        saved = (gt.socket, gt.time)
+        gt.socket = types.SimpleNamespace(create_connection=create_connection_timeout, timeout=_socket.timeout)
+        gt.time = types.SimpleNamespace(sleep=sleep, time=lambda: 0.0)
+        try:
+            gt.sync_connect(tr)
+        finally:
+            gt.socket, gt.time = saved
+        if sleeps != [want_rt]:
+            viols.append(Violation(PROP, f"option-ignored|{cls_name}|reconnect_timeout", f"{cls_name} with {sorted(subset)}: after a connect attempt that timed out the retry sleeps {sleeps}, expected [{want_rt}]", rep))
+        del sleeps[:]
+        sleeps.extend(first)
     if sleeps != [want_rt]:
         viols.append(Violation(PROP, f"option-ignored|{cls_name}|reconnect_timeout", f"{cls_name} with {sorted(subset)}: retry sleeps {sleeps}, expected [{want_rt}]", rep))
     return viols
